@@ -35,7 +35,7 @@ ELEMS = {
     'stmt': ['_ = 1', 'é = "é"', 'pass'],
     'handler': ['except _E: pass', 'except É as é: pass'],
     'case': ['case _x: pass', 'case "é": pass'],
-    'cmp': ['_x', 'é', '-q', '(p)'],
+    'cmp': ['_x', 'é', '-q', '(p)', '< _x', '_x <', 'is not é', 'é not in', '== (p)', 'in\n é'],
 }
 
 # (source, node class name, field, element kind)   the first node of that class in the source is the container
